@@ -107,8 +107,11 @@ def run(ctx, rep):
         thr = ctx.rng.choice([0.01, 0.05, 0.1])
         seed = ctx.rng.randrange(1 << 30)
         obj = L.Objective(ctx.rng.choice(["onemax", "plateau", "const", "weighted"]))
+        thr_c, thr_m = ctx.rng.choice([0.01, 0.05, 0.1, 0.2]), ctx.rng.choice([0.01, 0.05, 0.1, 0.2])
+        if len(cxs) * thr_c > 1 or len(mus) * thr_m > 1:
+            thr_c = thr_m = thr
         kw = dict(iters=iters, pop_size=pop, selections=sels, crossovers=cxs, mutations=mus, selection_threshold_proba=thr,
-                  crossover_threshold_proba=thr, mutation_threshold_proba=thr, random_state=seed, tour_size=3, parents_num=3,
+                  crossover_threshold_proba=thr_c, mutation_threshold_proba=thr_m, random_state=seed, tour_size=3, parents_num=3,
                   keep_history=True)
         if kind.startswith("SelfC"):
             kw["K"] = K
@@ -177,7 +180,7 @@ def run(ctx, rep):
             for t in range(3):
                 z = len(names[t])
                 floor = thrs[t] / (1 + z * thrs[t] + K / iters) if kind.startswith("SelfC") else thrs[t]
-                if k1[t] != names[t] or abs(sum(p1[t]) - 1) > 1e-9 or any(v <= 0 for v in p1[t]) or any(v < floor - 1e-12 for v in p1[t]):
+                if sorted(k1[t]) != names[t] or abs(sum(p1[t]) - 1) > 1e-9 or any(v <= 0 for v in p1[t]) or any(v < floor - 1e-12 for v in p1[t]):
                     rep.problem("distribution", "operator probabilities are not a strictly positive distribution over the configured names above the floor",
                                 dict(where, kind_of_map=t, keys=k1[t], values=p1[t], floor=floor), "distribution", True, p1[t], None, "C14_distribution")
             if kind.startswith("SelfC"):
@@ -202,10 +205,18 @@ def run(ctx, rep):
                                 "pdp:no-redraw" if kind.startswith("PDP") else "redraw", True, len(us), 3 * pop, "C14_redraw_uses_updated")
                 else:
                     for t in range(3):
-                        pk = picks(p1[t], us[t * pop:(t + 1) * pop])
-                        if pk != lab1[t]:
+                        # by NAME: the u-th draw selects the entry of the updated map (in the map's own order) whose
+                        # cumulative interval contains u; the operator applied must carry that entry's name
+                        pk_names = [k1[t][j] for j in picks(p1[t], us[t * pop:(t + 1) * pop])]
+                        pk = [names[t].index(x) for x in pk_names]
+                        if pk_names != o1[t]:
                             rep.problem("redraw", "operator labels are not the weighted picks of this generation's draws under the updated probabilities",
                                         dict(where, kind_of_map=t), "redraw", True, lab1[t], pk, "C14_redraw_uses_updated")
+            if k0 != names or k1 != names:
+                rep.hist("maps_not_in_sorted_order", kind)
+                rep.problem("order", "the probability maps are not kept in sorted-name order (the model assumes the code's sorted dicts)", dict(where, keys=k1),
+                            "maps-unsorted", False)
+                continue
             ds = [d for d in st["draws"] if d[0] in ("U", "I")]
             case = dict(where, pre_maps=p0, pre_labels=lab0, fitness=st["fit"], previous=st["prev"], draws=ds, post_maps=p1, post_labels=lab1)
             if kind.startswith("SelfC"):
